@@ -127,6 +127,29 @@ impl<'de> serde::Deserialize<'de> for LocaleServerFnOutputClient {
     }
 }
 
+/// Push `value` as a JS string literal that is safe to embed in a `<script>` element:
+/// quotes, backslashes, control characters and U+2028/U+2029 are escaped such that the literal evaluates to `value`,
+/// and `<`, `>` and `&` are written as unicode escapes such that `</script>` or `<!--` can't appear in the script text.
+#[cfg(all(feature = "dynamic_load", any(feature = "ssr", feature = "hydrate")))]
+fn push_js_string_literal(buff: &mut String, value: &str) {
+    use std::fmt::Write;
+    buff.push('"');
+    for c in value.chars() {
+        match c {
+            '"' => buff.push_str("\\\""),
+            '\\' => buff.push_str("\\\\"),
+            '\n' => buff.push_str("\\n"),
+            '\r' => buff.push_str("\\r"),
+            '\t' => buff.push_str("\\t"),
+            '<' | '>' | '&' | '\u{2028}' | '\u{2029}' | '\0'..='\u{1f}' | '\u{7f}' => {
+                write!(buff, "\\u{:04x}", c as u32).unwrap()
+            }
+            c => buff.push(c),
+        }
+    }
+    buff.push('"');
+}
+
 #[cfg(all(feature = "dynamic_load", feature = "ssr"))]
 mod register {
     use super::*;
@@ -178,9 +201,7 @@ mod register {
                     if !std::mem::replace(&mut first, false) {
                         buff.push(',');
                     }
-                    buff.push('\"');
-                    buff.push_str(value);
-                    buff.push('\"');
+                    push_js_string_literal(&mut buff, value);
                 }
                 buff.push_str("]}");
             }
@@ -235,9 +256,7 @@ pub fn init_translations<L: Locale>() -> impl leptos::IntoView {
             if !std::mem::replace(&mut first, false) {
                 buff.push(',');
             }
-            buff.push('\"');
-            buff.push_str(value);
-            buff.push('\"');
+            push_js_string_literal(&mut buff, value);
         }
         buff.push_str("]}");
         L::init_translations(locale, id, values);
